@@ -55,12 +55,15 @@ struct P {
     gen_async: Vec<(usize, usize, u64)>,
     #[serde(default)]
     gen_blocking: Vec<(usize, usize, u64)>,
-    /// property exercises through the generated proxies: (interface, property, value seed, cached proxy);
-    /// the async and the blocking list never name the same property (their writes would race)
+    /// persistent generated proxies opened before anything else: (who: 0 = async / 1 = blocking client,
+    /// interface, property, at the shared path (every generated interface on one object, so property names
+    /// collide) or at the interface's own path, caching proxy); the two clients never hold the same
+    /// property (their writes would race)
     #[serde(default)]
-    gen_props_async: Vec<(usize, usize, u64, bool)>,
+    gen_handles: Vec<(u8, usize, usize, bool, bool)>,
+    /// property operations through those proxies, in order: (handle, Some(value seed) = write / None = read)
     #[serde(default)]
-    gen_props_blocking: Vec<(usize, usize, u64)>,
+    gen_prop_ops: Vec<(usize, Option<u64>)>,
     /// generated signals: (interface, signal, value seed, subscriber: 0 = async stream, 1 = blocking iterator);
     /// each (interface, signal) at most once; emitted in this order after the hand-written signals
     #[serde(default)]
@@ -180,17 +183,29 @@ impl Scenario for C33Scn {
         let gen_blocking = (0..rng.below(4)).map(|_| gen_call(rng)).collect();
         let with_props: Vec<usize> = (0..corpus_gen::N_IFACES).filter(|k| corpus_gen::n_props(*k) > 0).collect();
         let with_sigs: Vec<usize> = (0..corpus_gen::N_IFACES).filter(|k| corpus_gen::n_signals(*k) > 0).collect();
-        let mut gen_props_async: Vec<(usize, usize, u64, bool)> = vec![];
-        let mut gen_props_blocking: Vec<(usize, usize, u64)> = vec![];
+        let mut gen_handles: Vec<(u8, usize, usize, bool, bool)> = vec![];
         for _ in 0..rng.below(6) {
+            let shared = rng.chance(1, 2);
             let k = *rng.pick(&with_props);
-            let pi = rng.below(corpus_gen::n_props(k) as u64) as usize;
-            let seed = rng.next_u64() >> 12;
-            let to_async = rng.chance(2, 3);
-            if to_async && !gen_props_blocking.iter().any(|e| (e.0, e.1) == (k, pi)) {
-                gen_props_async.push((k, pi, seed, rng.chance(1, 2)));
-            } else if !to_async && !gen_props_async.iter().any(|e| (e.0, e.1) == (k, pi)) {
-                gen_props_blocking.push((k, pi, seed));
+            // on the shared object prefer the name every interface has, so that names collide
+            let pi = if shared && rng.chance(1, 2) { 0 } else { rng.below(corpus_gen::n_props(k) as u64) as usize };
+            let who = if rng.chance(2, 3) { 0u8 } else { 1 };
+            if gen_handles.iter().any(|h| h.0 != who && (h.1, h.2, h.3) == (k, pi, shared)) {
+                continue;
+            }
+            gen_handles.push((who, k, pi, shared, who == 0 && rng.chance(1, 2)));
+        }
+        let mut gen_prop_ops: Vec<(usize, Option<u64>)> = vec![];
+        if !gen_handles.is_empty() {
+            for _ in 0..rng.below(9) {
+                let h = rng.usize(gen_handles.len());
+                let access = corpus_gen::PROPS.iter().filter(|t| t.0 == gen_handles[h].1).nth(gen_handles[h].2).unwrap().4;
+                let write = match access {
+                    "read" => false,
+                    "write" => true,
+                    _ => rng.chance(1, 2),
+                };
+                gen_prop_ops.push((h, if write { Some(rng.next_u64() >> 12) } else { None }));
             }
         }
         let mut gen_signals: Vec<(usize, usize, u64, u8)> = vec![];
@@ -201,7 +216,7 @@ impl Scenario for C33Scn {
                 gen_signals.push((k, si, rng.next_u64() >> 12, rng.below(2) as u8));
             }
         }
-        (sched, j(&P { async_ops, blocking_ops, cached, signals, link: gen_read_cfg(rng), gen_async, gen_blocking, gen_props_async, gen_props_blocking, gen_signals }))
+        (sched, j(&P { async_ops, blocking_ops, cached, signals, link: gen_read_cfg(rng), gen_async, gen_blocking, gen_handles, gen_prop_ops, gen_signals }))
     }
 
     fn shrink(&self, body: &Value) -> Vec<Value> {
@@ -232,15 +247,23 @@ impl Scenario for C33Scn {
             q.gen_blocking = v;
             out.push(j(&q));
         }
-        for v in drop_candidates(&p.gen_props_async) {
+        for v in drop_candidates(&p.gen_prop_ops) {
             let mut q = p.clone();
-            q.gen_props_async = v;
+            q.gen_prop_ops = v;
             out.push(j(&q));
         }
-        for v in drop_candidates(&p.gen_props_blocking) {
-            let mut q = p.clone();
-            q.gen_props_blocking = v;
-            out.push(j(&q));
+        // drop one handle no operation refers to
+        for h in 0..p.gen_handles.len() {
+            if !p.gen_prop_ops.iter().any(|o| o.0 == h) {
+                let mut q = p.clone();
+                q.gen_handles.remove(h);
+                for o in &mut q.gen_prop_ops {
+                    if o.0 > h {
+                        o.0 -= 1;
+                    }
+                }
+                out.push(j(&q));
+            }
         }
         for v in drop_candidates(&p.gen_signals) {
             let mut q = p.clone();
@@ -265,7 +288,7 @@ impl Scenario for C33Scn {
         let (c2, l2, ww) = (conns.clone(), log.clone(), w.clone());
         let setup = w.spawn("setup", async move {
             let a = zbus::connection::Builder::authenticated_socket(sa, crate::peers::GUID).unwrap().p2p().internal_executor(false).serve_at("/a", A::new(&l2, &ww, 0)).unwrap();
-            let a = corpus_gen::serve_all(a, &l2, &ww).unwrap().build().await;
+            let a = corpus_gen::serve_shared(corpus_gen::serve_all(a, &l2, &ww).unwrap(), &l2, &ww).unwrap().build().await;
             let b = zbus::connection::Builder::authenticated_socket(sb, crate::peers::GUID).unwrap().p2p().internal_executor(false).build().await;
             if let (Ok(a), Ok(b)) = (a, b) {
                 *c2.lock().unwrap() = Some((a, b));
@@ -286,7 +309,7 @@ impl Scenario for C33Scn {
         let gen_sig_seen = shared(0usize);
 
         // ---- async client ----
-        let (cl, ops, cached, mm, sub, ga, fl, ww, gens, gprops, gsigs, sl, seen) = (client.clone(), p.async_ops.clone(), p.cached, mismatches.clone(), subscribed.clone(), got_async.clone(), failures.clone(), w.clone(), p.gen_async.clone(), p.gen_props_async.clone(), p.gen_signals.clone(), sent_log.clone(), gen_sig_seen.clone());
+        let (cl, ops, cached, mm, sub, ga, fl, ww, gens, gprops, gsigs, sl, seen) = (client.clone(), p.async_ops.clone(), p.cached, mismatches.clone(), subscribed.clone(), got_async.clone(), failures.clone(), w.clone(), p.gen_async.clone(), (p.gen_handles.clone(), p.gen_prop_ops.clone()), p.gen_signals.clone(), sent_log.clone(), gen_sig_seen.clone());
         let async_client = w.spawn("async-client", async move {
             let px = match SimAProxy::builder(&cl).cache_properties(if cached { zbus::proxy::CacheProperties::Lazily } else { zbus::proxy::CacheProperties::No }).build().await {
                 Ok(p) => p,
@@ -295,6 +318,23 @@ impl Scenario for C33Scn {
                     return;
                 }
             };
+            let (ghandles, gpops) = gprops;
+            let mut handles = std::collections::BTreeMap::new();
+            for (h, (who, k, pi, shared, hcached)) in ghandles.iter().enumerate() {
+                if *who != 0 {
+                    continue;
+                }
+                let path = if *shared { corpus_gen::SHARED.to_string() } else { format!("/g{k}") };
+                match corpus_gen::open_prop_async(&cl, *k, *pi, &path, *hcached).await {
+                    Ok(hd) => {
+                        handles.insert(h, hd);
+                    }
+                    Err(e) => {
+                        fl.lock().unwrap().push(format!("async generated proxy I{k} at {path}: {e}"));
+                        return;
+                    }
+                }
+            }
             let mut ticks = match px.receive_tick().await {
                 Ok(s) => s,
                 Err(e) => {
@@ -411,18 +451,30 @@ impl Scenario for C33Scn {
                     Err(e) => mm.lock().unwrap().push(format!("async gen {i} I{k}.M{m}: proxy build failed: {e}")),
                 }
             }
-            for (i, (k, pi, seed, cached)) in gprops.iter().enumerate() {
-                let mut r = Rng::new(*seed);
-                match corpus_gen::drive_prop_async(&cl, &ww, *k, *pi, *cached, &mut r).await {
-                    Ok((sent, bad)) => {
-                        if let Some(sent) = sent {
-                            sl.lock().unwrap().push((format!("org.gen.I{k}"), format!("SetP{pi}"), sent));
+            let any_cached = ghandles.iter().any(|h| h.0 == 0 && h.4);
+            let mut model: std::collections::BTreeMap<(bool, usize, usize), String> = Default::default();
+            for (i, (h, write)) in gpops.iter().enumerate() {
+                let Some(hd) = handles.get(h) else { continue };
+                let (_, k, pi, shared, _) = ghandles[*h];
+                let at = if shared { "shared" } else { "own" };
+                match write {
+                    Some(seed) => match (hd.set)(*seed).await {
+                        Ok(c) => {
+                            sl.lock().unwrap().push((format!("org.gen.I{k}"), format!("SetP{pi}"), c.clone()));
+                            model.insert((shared, k, pi), c);
+                            if any_cached {
+                                ww.sleep_ns(1_000_000).await;
+                            }
                         }
-                        if let Some(e) = bad {
-                            mm.lock().unwrap().push(format!("async genprop {i} I{k}.P{pi}: {e}"));
+                        Err(e) => mm.lock().unwrap().push(format!("async genprop {i} I{k}.P{pi}@{at}: write failed: {e}")),
+                    },
+                    None => {
+                        let want = model.get(&(shared, k, pi)).cloned().unwrap_or_else(|| corpus_gen::initial_canon(k)[pi].clone());
+                        match (hd.get)().await {
+                            Ok(c) if c == want => {}
+                            other => mm.lock().unwrap().push(format!("async genprop {i} I{k}.P{pi}@{at}: the server holds {want}, the proxy read {other:?}")),
                         }
                     }
-                    Err(e) => mm.lock().unwrap().push(format!("async genprop {i} I{k}.P{pi}: proxy build failed: {e}")),
                 }
             }
             for t in waiters {
@@ -432,7 +484,7 @@ impl Scenario for C33Scn {
         });
 
         // ---- blocking client on a baton thread ----
-        let (cl, ops, mm, sub, gb, fl, nsig, gens, gprops, gsigs, sl, seen) = (client.clone(), p.blocking_ops.clone(), mismatches.clone(), subscribed.clone(), got_blocking.clone(), failures.clone(), p.signals.len(), p.gen_blocking.clone(), p.gen_props_blocking.clone(), p.gen_signals.clone(), sent_log.clone(), gen_sig_seen.clone());
+        let (cl, ops, mm, sub, gb, fl, nsig, gens, gprops, gsigs, sl, seen) = (client.clone(), p.blocking_ops.clone(), mismatches.clone(), subscribed.clone(), got_blocking.clone(), failures.clone(), p.signals.len(), p.gen_blocking.clone(), (p.gen_handles.clone(), p.gen_prop_ops.clone()), p.gen_signals.clone(), sent_log.clone(), gen_sig_seen.clone());
         w.spawn_thread("blocking-client", move || {
             let bconn = zbus::blocking::Connection::from(cl);
             let px = match SimAProxyBlocking::builder(&bconn).cache_properties(zbus::proxy::CacheProperties::No).build() {
@@ -442,6 +494,23 @@ impl Scenario for C33Scn {
                     return;
                 }
             };
+            let (ghandles, gpops) = gprops;
+            let mut handles = std::collections::BTreeMap::new();
+            for (h, (who, k, pi, shared, _)) in ghandles.iter().enumerate() {
+                if *who != 1 {
+                    continue;
+                }
+                let path = if *shared { corpus_gen::SHARED.to_string() } else { format!("/g{k}") };
+                match corpus_gen::open_prop_blocking(&bconn, *k, *pi, &path) {
+                    Ok(hd) => {
+                        handles.insert(h, hd);
+                    }
+                    Err(e) => {
+                        fl.lock().unwrap().push(format!("blocking generated proxy I{k} at {path}: {e}"));
+                        return;
+                    }
+                }
+            }
             let mut ticks = match px.receive_tick() {
                 Ok(s) => s,
                 Err(e) => {
@@ -494,18 +563,26 @@ impl Scenario for C33Scn {
                     Err(e) => mm.lock().unwrap().push(format!("blocking gen {i} I{k}.M{m}: proxy build failed: {e}")),
                 }
             }
-            for (i, (k, pi, seed)) in gprops.iter().enumerate() {
-                let mut r = Rng::new(*seed);
-                match corpus_gen::drive_prop_blocking(&bconn, *k, *pi, &mut r) {
-                    Ok((sent, bad)) => {
-                        if let Some(sent) = sent {
-                            sl.lock().unwrap().push((format!("org.gen.I{k}"), format!("SetP{pi}"), sent));
+            let mut model: std::collections::BTreeMap<(bool, usize, usize), String> = Default::default();
+            for (i, (h, write)) in gpops.iter().enumerate() {
+                let Some(hd) = handles.get(h) else { continue };
+                let (_, k, pi, shared, _) = ghandles[*h];
+                let at = if shared { "shared" } else { "own" };
+                match write {
+                    Some(seed) => match (hd.set)(*seed) {
+                        Ok(c) => {
+                            sl.lock().unwrap().push((format!("org.gen.I{k}"), format!("SetP{pi}"), c.clone()));
+                            model.insert((shared, k, pi), c);
                         }
-                        if let Some(e) = bad {
-                            mm.lock().unwrap().push(format!("blocking genprop {i} I{k}.P{pi}: {e}"));
+                        Err(e) => mm.lock().unwrap().push(format!("blocking genprop {i} I{k}.P{pi}@{at}: write failed: {e}")),
+                    },
+                    None => {
+                        let want = model.get(&(shared, k, pi)).cloned().unwrap_or_else(|| corpus_gen::initial_canon(k)[pi].clone());
+                        match (hd.get)() {
+                            Ok(c) if c == want => {}
+                            other => mm.lock().unwrap().push(format!("blocking genprop {i} I{k}.P{pi}@{at}: the server holds {want}, the proxy read {other:?}")),
                         }
                     }
-                    Err(e) => mm.lock().unwrap().push(format!("blocking genprop {i} I{k}.P{pi}: proxy build failed: {e}")),
                 }
             }
             for _ in 0..nsig {
@@ -611,7 +688,12 @@ impl Scenario for C33Scn {
         if !p.gen_async.is_empty() && !p.gen_blocking.is_empty() {
             w.count("probe.generated_async_and_blocking_called");
         }
-        w.count_n("probe.generated_property_roundtrips", (p.gen_props_async.len() + p.gen_props_blocking.len()) as u64);
+        w.count_n("probe.generated_property_operations", p.gen_prop_ops.len() as u64);
+        // two live proxies for different interfaces of one object whose properties share a name, one of them written
+        let collide = p.gen_handles.iter().enumerate().any(|(a, ha)| ha.3 && p.gen_handles.iter().enumerate().any(|(b, hb)| a != b && hb.3 && hb.1 != ha.1 && hb.2 == ha.2 && p.gen_prop_ops.iter().any(|o| o.0 == b && o.1.is_some())));
+        if collide {
+            w.count("probe.same_named_property_of_another_interface_written");
+        }
         w.count_n("probe.generated_signals_received", seen as u64);
         let both = p.async_ops.iter().any(|o| expect_stateless(o).is_some()) && !p.blocking_ops.is_empty();
         let wrote = p.async_ops.iter().any(|o| matches!(o, MOp::SetLabel(_) | MOp::SetLevel(_) | MOp::SetQuiet(_)));
